@@ -143,7 +143,16 @@ func (r *rdbdriver) findMapInSortedData(domain, mtype []byte, context Context) (
 		}
 
 		foundLabel := foundKey[prefixLen : len(foundKey)-1]
-		length := findCommonLongestPrefix(reversedZone, foundLabel)
+		// length of the name we have just looked up, terminating \0 included
+		currentLength := len(k) - prefixLen - len(suffix)
+		var length int
+		if bytes.Equal(k[prefixLen:prefixLen+currentLength], foundLabel) {
+			// closest key is the same name with another suffix (its wildcard map):
+			// it does not cover the name itself, strip exactly one label
+			length = getLengthWithoutLastLabel(reversedZone, currentLength) - 1
+		} else {
+			length = findCommonLongestPrefix(reversedZone, foundLabel)
+		}
 		if length == 0 {
 			break
 		}
